@@ -17,7 +17,7 @@ From DX Require Import Bytes Res Codec Text Sections Header Json Writer.
 From DX Require HeaderFacts TextFacts WriterFacts Encodings.
 From DX Require Import WriterCanonFacts RoundTripBase RoundTripContent RoundTripSim RoundTrip.
 From DX Require Import SpecSerializer.
-From DX Require RoundTripSeqExample.
+From DX Require RoundTripCor RoundTripSeqExample.
 From DXGen Require GenSections GenText GenCodecs.
 Import ListNotations.
 Import String.StringSyntax.
@@ -669,14 +669,18 @@ Section Walk.
     destruct Hd as (r & ->). rewrite guess_json_text. reflexivity.
   Qed.
 
+  (* [meta_enc_b]: an encoding is in force (RoundTripSim.v).  With none the fixed writer accepts the call and writes
+     the JSON as bytes, while [spec_call] (no effective encoding for text) is undefined. *)
   Lemma meta_step : forall h s md enc fmt s',
-    Pos h s -> call_good (WriteMeta md enc fmt) ->
+    Pos h s -> call_good (WriteMeta md enc fmt) -> meta_enc_b s (WriteMeta md enc fmt) = true ->
     do_call (WriteMeta md enc fmt) s = (s', Ok tt) ->
     exists out, spec_call e0 h (WriteMeta md enc fmt) = Some (out, h) /\ w_out s' = w_out s ++ out.
   Proof.
-    intros h s md enc fmt s' HP (He & kv & ->) H.
+    intros h s md enc fmt s' HP (He & kv & ->) Hme H.
     destruct (content_target h s _ s' (B "meta") HP H eq_refl) as (Hlev & _ & _).
-    destruct (meta_call_inv _ _ _ _ _ H) as (j & d & Ej & Htr & Hfmt & Hd & Hn). injection Ej as <-.
+    assert (Hne : w_stack s <> []).
+    { destruct (pos_facts h s HP) as (Hr & _). apply WriterFacts.Inv_stack, WriterFacts.reachable_inv, Hr. }
+    destruct (meta_call_inv _ _ _ _ _ Hne Hme H) as (j & d & Ej & Htr & Hfmt & Hd & Hn). injection Ej as <-.
     assert (Hkv : kv <> []) by (intros ->; discriminate Htr).
     destruct (C02_length_exact _ _ _ _ _ _ _ _ _ _ Hn) as (body & le_out & hd & Hprep & Hh & _ & Hout & _ & _).
     destruct (enc_ok_arg enc He) as (own & Hown & _ & Hsv & _).
@@ -747,28 +751,29 @@ Section Walk.
 
   (* one accepted call: the writer appended exactly the section the specification puts at this position *)
   Lemma call_step : forall h s c s',
-    Pos h s -> call_good c -> do_call c s = (s', Ok tt) ->
+    Pos h s -> call_good c -> meta_enc_b s c = true -> do_call c s = (s', Ok tt) ->
     exists out h', spec_call e0 h c = Some (out, h') /\ w_out s' = w_out s ++ out /\ Pos h' s'.
   Proof.
-    intros h s c s' HP Hg H.
+    intros h s c s' HP Hg Hme H.
     assert (Hkeep : Encodings.call_transition c = None -> Pos h s').
     { intros Hc. rewrite <- (app_nil_r h). eapply (pos_step h s c s' []); [exact HP|exact H|]. rewrite Hc. reflexivity. }
     destruct c as [e|e|text enc ind le mt|md enc fmt|content dt enc le].
     - eapply container_step; eauto.
     - eapply container_step; eauto.
     - destruct (preamble_step _ _ _ _ _ _ _ _ HP Hg H) as (out & H1 & H2). exists out, h. auto.
-    - destruct (meta_step _ _ _ _ _ _ HP Hg H) as (out & H1 & H2). exists out, h. auto.
+    - destruct (meta_step _ _ _ _ _ _ HP Hg Hme H) as (out & H1 & H2). exists out, h. auto.
     - destruct (diff_step _ _ _ _ _ _ _ HP Hg H) as (out & H1 & H2). exists out, h. auto.
   Qed.
 
-  Lemma walk_correct : forall cs h s, Pos h s -> Forall call_good cs -> accepted s cs ->
+  Lemma walk_correct : forall cs h s, Pos h s -> Forall call_good cs -> accepted s cs -> metas_encoded s cs ->
     exists suf, walk e0 h cs = Some suf /\ w_out (snd (run_calls s cs)) = w_out s ++ suf.
   Proof.
-    induction cs as [|c t IH]; intros h s HP Hg Ha.
+    induction cs as [|c t IH]; intros h s HP Hg Ha Hme.
     - exists []. split; [reflexivity|]. cbn [run_calls snd]. rewrite app_nil_r. reflexivity.
     - inversion Hg as [|? ? Hc Ht]; subst. destruct (accepted_cons _ _ _ Ha) as (s' & Hd & Ha').
-      destruct (call_step h s c s' HP Hc Hd) as (out & h' & Hs & Ho & HP').
-      destruct (IH h' s' HP' Ht Ha') as (suf & Hw & Hr).
+      cbn [metas_encoded] in Hme. destruct Hme as [Hmc Hmt]. rewrite Hd in Hmt. cbn [fst] in Hmt.
+      destruct (call_step h s c s' HP Hc Hmc Hd) as (out & h' & Hs & Ho & HP').
+      destruct (IH h' s' HP' Ht Ha' Hmt) as (suf & Hw & Hr).
       exists (out ++ suf). split.
       + cbn [walk]. rewrite Hs. cbn [obind fst snd]. rewrite Hw. reflexivity.
       + rewrite WriterFacts.run_calls_cons, Hd. cbn [fst snd]. rewrite Hr, Ho, app_assoc. reflexivity.
@@ -806,14 +811,18 @@ End Walk.
 (* ================================================================================================ *)
 (** * The theorem *)
 
+(* [metas_encoded s0 cs] (RoundTripSim.v): at every write_meta an encoding is in force.  Without it the statement is
+   false of the fixed writer ([writer_is_spec_unencoded_refuted] below): DiffXWriter(encoding=None) accepts
+   write_meta and writes the JSON as bytes; the specification's serializer has no effective encoding for that
+   text and is undefined. *)
 Theorem C02_writer_is_spec_thm : forall enc0 ver s0 cs,
-  writer_init enc0 ver = (s0, Ok tt) -> enc_ok enc0 -> Forall call_good cs -> accepted s0 cs ->
+  writer_init enc0 ver = (s0, Ok tt) -> enc_ok enc0 -> Forall call_good cs -> accepted s0 cs -> metas_encoded s0 cs ->
   spec_serialize enc0 ver cs = Some (w_out (snd (run_calls s0 cs))).
 Proof.
-  intros enc0 ver s0 cs Hi He Hg Ha.
+  intros enc0 ver s0 cs Hi He Hg Ha Hme.
   destruct (enc_ok_arg enc0 He) as (e0 & He0 & _).
   destruct (init_spec enc0 ver s0 e0 Hi He0 He) as (v & Hv & Hout).
-  destruct (walk_correct enc0 ver s0 e0 Hi He0 He cs [] s0 (pos_init s0) Hg Ha) as (suf & Hw & Hr).
+  destruct (walk_correct enc0 ver s0 e0 Hi He0 He cs [] s0 (pos_init s0) Hg Ha Hme) as (suf & Hw & Hr).
   unfold spec_serialize. rewrite He0. cbn [obind]. rewrite Hv. cbn [obind]. rewrite Hw. cbn [obind].
   rewrite Hr, Hout. reflexivity.
 Qed.
@@ -821,18 +830,51 @@ Qed.
 (* under the same hypotheses the specification's serializer is defined: every argument is in its domain and every
    section has a legal id at its position *)
 Corollary spec_serialize_defined : forall enc0 ver s0 cs,
-  writer_init enc0 ver = (s0, Ok tt) -> enc_ok enc0 -> Forall call_good cs -> accepted s0 cs ->
+  writer_init enc0 ver = (s0, Ok tt) -> enc_ok enc0 -> Forall call_good cs -> accepted s0 cs -> metas_encoded s0 cs ->
   spec_serialize enc0 ver cs <> None.
-Proof. intros enc0 ver s0 cs Hi He Hg Ha. rewrite (C02_writer_is_spec_thm _ _ _ _ Hi He Hg Ha). discriminate. Qed.
+Proof. intros enc0 ver s0 cs Hi He Hg Ha Hme. rewrite (C02_writer_is_spec_thm _ _ _ _ Hi He Hg Ha Hme). discriminate. Qed.
+
+(* a prefix of a program in which every write_meta has an encoding in force is such a program *)
+Lemma metas_encoded_app : forall pre post s, metas_encoded s (pre ++ post) -> metas_encoded s pre.
+Proof.
+  induction pre as [|c t IH]; intros post s H; [exact I|]. cbn [app metas_encoded] in *.
+  destruct H as [H1 H2]. split; [exact H1|]. eapply IH; exact H2.
+Qed.
 
 (* every intermediate output too: the bytes after each accepted call are the serialization of the calls so far *)
 Corollary writer_is_spec_prefix : forall enc0 ver s0 pre post,
   writer_init enc0 ver = (s0, Ok tt) -> enc_ok enc0 -> Forall call_good (pre ++ post) -> accepted s0 (pre ++ post) ->
+  metas_encoded s0 (pre ++ post) ->
   spec_serialize enc0 ver pre = Some (w_out (snd (run_calls s0 pre))).
 Proof.
-  intros enc0 ver s0 pre post Hi He Hg Ha. apply Forall_app in Hg. destruct Hg as [Hg _].
+  intros enc0 ver s0 pre post Hi He Hg Ha Hme. apply Forall_app in Hg. destruct Hg as [Hg _].
   apply C02_writer_is_spec_thm; try assumption.
-  unfold accepted in *. rewrite run_calls_app_fst in Ha. apply Forall_app in Ha. apply Ha.
+  - unfold accepted in *. rewrite run_calls_app_fst in Ha. apply Forall_app in Ha. apply Ha.
+  - eapply metas_encoded_app; exact Hme.
+Qed.
+
+(* for a writer constructed with an encoding (pydiffx's default is 'utf-8') no hypothesis about write_meta *)
+Corollary writer_is_spec_encoded : forall enc0 ver s0 cs,
+  writer_init enc0 ver = (s0, Ok tt) -> enc_ok enc0 -> wv_truthy enc0 = true -> Forall call_good cs -> accepted s0 cs ->
+  spec_serialize enc0 ver cs = Some (w_out (snd (run_calls s0 cs))).
+Proof.
+  intros enc0 ver s0 cs Hi He Ht Hg Ha. apply C02_writer_is_spec_thm; try assumption.
+  eapply RoundTripCor.metas_encoded_init; eauto.
+Qed.
+
+(* without [metas_encoded] the theorem is false of the fixed writer *)
+Lemma writer_is_spec_unencoded_refuted :
+  exists enc0 ver s0 cs,
+    writer_init enc0 ver = (s0, Ok tt) /\ enc_ok enc0 /\ Forall call_good cs /\ accepted s0 cs /\
+    ~ metas_encoded s0 cs /\ spec_serialize enc0 ver cs = None.
+Proof.
+  exists WNone, (WStr (ascii_text (B "1.0"))), (fst (writer_init WNone (WStr (ascii_text (B "1.0"))))),
+         [WriteMeta (WDict (JObj [(ascii_text (B "k"), JInt 1)])) WNone None].
+  split; [vm_compute; reflexivity|]. split; [left; reflexivity|].
+  split; [constructor; [split; [left; reflexivity|eexists; reflexivity]|constructor]|].
+  split; [unfold accepted; vm_compute; repeat constructor|].
+  split; [intros [H _]; vm_compute in H; discriminate H|].
+  vm_compute. reflexivity.
 Qed.
 
 (* ================================================================================================ *)
@@ -844,6 +886,7 @@ Lemma spec_example :
   writer_init RoundTripSeqExample.ex_enc0 RoundTripSeqExample.ex_ver = (RoundTripSeqExample.ex_s0, Ok tt) /\
   enc_ok RoundTripSeqExample.ex_enc0 /\ Forall call_good RoundTripSeqExample.ex_cs /\
   accepted RoundTripSeqExample.ex_s0 RoundTripSeqExample.ex_cs /\
+  metas_encoded RoundTripSeqExample.ex_s0 RoundTripSeqExample.ex_cs /\
   spec_serialize RoundTripSeqExample.ex_enc0 RoundTripSeqExample.ex_ver RoundTripSeqExample.ex_cs
     = Some (w_out (snd (run_calls RoundTripSeqExample.ex_s0 RoundTripSeqExample.ex_cs))) /\
   option_map (@length byte)
@@ -851,6 +894,7 @@ Lemma spec_example :
 Proof.
   split; [exact RoundTripSeqExample.ex_init|]. split; [exact RoundTripSeqExample.ex_enc0_ok|].
   split; [exact RoundTripSeqExample.ex_good|]. split; [exact RoundTripSeqExample.ex_accepted|].
+  split; [exact RoundTripSeqExample.ex_metas|].
   split; vm_compute; reflexivity.
 Qed.
 
